@@ -181,6 +181,7 @@ func Verif_C13_EveryField() {
 	ov := &Overridables{}
 	bS, oS := verifWord("base.value", 1), v.NondetString("override.value", 1)
 	oSet := v.NondetBool("override.set")
+	var oM uint32
 	switch lf.Kind {
 	case "string":
 		lf.SetS(&cfg.Overridables, bS)
@@ -193,6 +194,13 @@ func Verif_C13_EveryField() {
 	case "bool":
 		lf.SetB(&cfg.Overridables, v.NondetBool("base.bool"))
 		lf.SetB(ov, oSet)
+	case "mode":
+		lf.SetM(&cfg.Overridables, 0o022)
+		if oSet {
+			oM = v.NondetU32("override.mode")
+			v.Assume(oM != 0)
+			lf.SetM(ov, oM)
+		}
 	}
 	bB := false
 	if lf.Kind == "bool" {
@@ -224,6 +232,14 @@ func Verif_C13_EveryField() {
 			v.Assert(verifSame(got, []string{bS}), "every-list-field-keeps-the-base-under-an-empty-override")
 		}
 		v.Assert(verifSame(lf.GetL(&inG.Overridables), []string{bS}), "every-field-of-another-format-is-the-base")
+	case "mode":
+		// the override block holds NOTHING but this number
+		if oSet {
+			v.Assert(lf.GetM(&inF.Overridables) == oM, "every-numeric-field-overridden-by-a-non-zero-value")
+		} else {
+			v.Assert(lf.GetM(&inF.Overridables) == 0o022, "every-numeric-field-keeps-the-base-under-a-zero-override")
+		}
+		v.Assert(lf.GetM(&inG.Overridables) == 0o022, "every-field-of-another-format-is-the-base")
 	case "bool":
 		if oSet {
 			v.Assert(lf.GetB(&inF.Overridables), "every-bool-field-set-by-a-true-override")
